@@ -26,7 +26,7 @@ def _in_discipline(n, ev):
             continue
         if r >= n:
             return False
-        if k == "r":
+        if k in "rh":
             if a in res[r]:
                 return False
             res[r].add(a)
@@ -44,6 +44,7 @@ class C37(Check):
     theorems = ("C37_refines_finite_map", "C37_lookup_is_map", "C37_registered_resolves",
                 "C37_unregistered_resolves_to_nothing", "C37_never_registered_is_null",
                 "C37_growth_preserves_entries", "C37_reserved_ids_distinct", "C37_sync_common_next",
+                "C37_sync_never_lowers_a_counter", "C37_stale_write_back_repeats_an_identifier",
                 "C37_zero_is_not_an_identifier")
     comp = "tpids"
     extract_file = "theories/Extract/Extract_TpIds.v"
@@ -62,7 +63,7 @@ class C37(Check):
                   "processes (one per simulated rank) against the extracted model on generated histories.")
     level_note = ("Each operation is one critical section of taskpool_array_lock, so concurrent executions are the sequential "
                   "histories the theorems quantify over; the lock itself (parsec_atomic_lock) is assumed to exclude, and is "
-                  "exercised only by the 'conc' cases (real threads). uint32 wrap-around of the counters and the (int) casts of "
+                  "exercised by the 'conc' cases and by the helper-thread family (real threads; the synchronisation holds the lock across its collective, so a reservation attempted meanwhile is ordered after it: model prints H:after). uint32 wrap-around of the counters and the (int) casts of "
                   "the synchronisation are outside the model. The MPI collective is replaced in the harness by a pipe-based "
                   "maximum over the forked rank processes (MPI_Initialized/MPI_Allreduce defined by the harness executable). "
                   "Identifier 0 is outside the property (never handed out): the model says its lookup faults on a fresh table "
@@ -74,7 +75,9 @@ class C37(Check):
             "power of two), lookups aimed at live, unregistered, reserved-only, boundary (2^k, 2^k +- 1) and beyond-the-counter "
             "identifiers; multi-process histories with different prior reservations, one to three synchronisations, "
             "reservations right after them; an out-of-discipline stream (identifier 0, unreserved pools, double reservation) "
-            "compared with the model only; 'conc T K': T threads reserve K identifiers concurrently. Non-trivial = at least "
+            "compared with the model only; a helper-thread family (<r>h<p>: a second thread of process r reserves and "
+            "registers pools while the main thread is inside the collective of the next synchronisation, released by the "
+            "harness's MPI_Allreduce); 'conc T K': T threads reserve K identifiers concurrently. Non-trivial = at least "
             "three reservations on some process (growth) or a synchronisation between processes with different counters; "
             "distinct = distinct case text")
     trusted = ("harness/h_tpids.c: dummy calloc'd parsec_taskpool_t objects; forked child per simulated process; "
@@ -225,6 +228,30 @@ class C37(Check):
                 toks += self._dump(1, behind + 2) + ["1l%d" % (ahead + 1), "0l%d" % (ahead + 1), "1l%d" % ahead]
                 toks += ["S", "1r9001", "0r9001"]
                 out.append("sys 2 : " + " ".join(toks))
+        # a second thread of the process reserves and registers pools while the main thread is inside the
+        # collective of the synchronisation (the harness's MPI_Allreduce releases it and waits 25 ms)
+        for _ in range(24 if q else 200):
+            n = r.range(1, 3)
+            toks = []
+            base = [1] * n
+            for _round in range(r.range(1, 2)):
+                for k in range(n):
+                    np_ = r.pick([0, 1, 2, 3, 5, 9, r.range(1, 20)])
+                    toks += self._lifecycle(r, k, np_, first_pool=base[k], lookups=0)
+                    base[k] += np_
+                hs = [k for k in range(n) if r.chance(2, 3)] or [r.below(n)]
+                hbase = 5000 + 100 * _round
+                for k in hs:
+                    for j in range(r.range(1, 3)):
+                        toks.append("%dh%d" % (k, hbase + j))
+                toks.append("S")
+                for k in r.shuffle(range(n)):
+                    for _j in range(r.range(1, 3)):
+                        toks += ["%dr%d" % (k, base[k]), "%dg%d" % (k, base[k])]
+                        base[k] += 1
+                for k in range(n):
+                    toks += self._dump(k, min(max(base) + 6, 40))
+            out.append("sys %d : %s" % (n, " ".join(toks)))
         # out of the discipline (compared with the model only): identifier 0, unreserved pools, double reservation
         mal = ["sys 1 : 0l0", "sys 1 : 0l1 0l0", "sys 1 : 0r1 0l0 0l1", "sys 1 : 0u1", "sys 1 : 0g1 0l0 0l1",
                "sys 1 : 0g1 0u1 0l0", "sys 1 : 0r1 0g2 0l0 0u2 0l0 0l1", "sys 1 : 0r1 0r1 0g1 0l1 0l2 0u1 0l2",
@@ -250,7 +277,7 @@ class C37(Check):
         n, ev = _parse(case)
         cnt = [0] * n
         for rk, k, a in ev:
-            if k == "r" and rk < n:
+            if k in "rh" and rk < n:
                 cnt[rk] += 1
         if max(cnt) >= 3 or (n > 1 and any(k == "S" for _, k, _ in ev) and len(set(cnt)) > 1):
             return case
@@ -310,7 +337,35 @@ class C37(Check):
             ptr[rk] += 1
             return toks[ptr[rk] - 1]
 
+        helper = [[] for _ in range(n)]   # pools a second thread reserves + registers during the next collective
+
+        def reserved(rk, a, i, counts_for_sync):
+            if i <= last[rk] or i < 1:
+                return "reserve-dup: process %d was handed identifier %d after %d" % (rk, i, last[rk])
+            last[rk] = i
+            idof[rk][a] = i
+            if counts_for_sync and pending[rk] is not None:
+                e = pending[rk]
+                pending[rk] = None
+                if e in first and first[e] != i:
+                    return "sync-mismatch: after synchronisation %d processes hand out %d and %d" % (e, first[e], i)
+                first.setdefault(e, i)
+            return None
+
+        def registered(rk, a, t):
+            if t != "g%d" % idof[rk][a]:
+                return "register-id: pool %d registered under %s, its identifier is %d" % (a, t, idof[rk][a])
+            other = tab[rk].get(idof[rk][a])
+            if other is not None and other != a:
+                return "register-clobber: process %d registers pool %d under identifier %d, where pool %d is registered" % (
+                    rk, a, idof[rk][a], other)
+            tab[rk][idof[rk][a]] = a
+            return None
+
         for rk, k, a in ev:
+            if k == "h":
+                helper[rk].append(a)
+                continue
             if k == "S":
                 epoch += 1
                 for q in range(n):
@@ -318,6 +373,24 @@ class C37(Check):
                     if t != "S":
                         return "crash: process %d did not complete synchronisation %d (%s)" % (q, epoch, t)
                     pending[q] = epoch
+                for q in range(n):
+                    if not helper[q]:
+                        continue
+                    mark = nexttok(q)
+                    if mark not in ("H:in", "H:after"):
+                        return "crash: the helper thread of process %d did not report (%s)" % (q, mark)
+                    for a2 in helper[q]:
+                        t = nexttok(q)
+                        if t is None or not t.startswith("i"):
+                            return "crash: bad reservation answer of the helper thread: %s" % t
+                        # a reservation made inside the collective is concurrent with the sync, not "after" it
+                        why = reserved(q, a2, int(t[1:]), mark == "H:after")
+                        if why:
+                            return why
+                        why = registered(q, a2, nexttok(q))
+                        if why:
+                            return why
+                    helper[q] = []
                 continue
             t = nexttok(rk)
             if t is None or t == "CRASH" or t.startswith("<"):
@@ -325,21 +398,13 @@ class C37(Check):
             if k == "r":
                 if not t.startswith("i"):
                     return "crash: bad reservation answer " + t
-                i = int(t[1:])
-                if i <= last[rk] or i < 1:
-                    return "reserve-dup: process %d was handed identifier %d after %d" % (rk, i, last[rk])
-                last[rk] = i
-                idof[rk][a] = i
-                if pending[rk] is not None:
-                    e = pending[rk]
-                    pending[rk] = None
-                    if e in first and first[e] != i:
-                        return "sync-mismatch: after synchronisation %d processes hand out %d and %d" % (e, first[e], i)
-                    first.setdefault(e, i)
+                why = reserved(rk, a, int(t[1:]), True)
+                if why:
+                    return why
             elif k == "g":
-                if t != "g%d" % idof[rk][a]:
-                    return "register-id: pool %d registered under %s, its identifier is %d" % (a, t, idof[rk][a])
-                tab[rk][idof[rk][a]] = a
+                why = registered(rk, a, t)
+                if why:
+                    return why
             elif k == "u":
                 if t != "u":
                     return "crash: bad unregister answer " + t
